@@ -356,7 +356,17 @@ func runC15(e *core.Env) error {
 	// ---- chain-derived data with SQL metacharacters reaches the database only as data
 	for i := 0; i < e.N(20, 200); i++ {
 		igs := c15BaseIntegrations()
-		d, err := dig.New(igs[0].Name, igs[0].Event, igs[0].Block, igs[0].Table, igs[0].Notification, "or")
+		iga := igs[0]
+		for _, g := range igs {
+			if g.Name == "iga" { // the declaration with filters, reference lookups and notification columns
+				iga = g
+			}
+		}
+		for k := range iga.Block {
+			iga.Block[k].Filter.Ref.Table = "tb"
+		}
+		iga.Event.Inputs[3].Components[1].Filter.Ref.Table = "tb"
+		d, err := dig.New(iga.Name, iga.Event, iga.Block, iga.Table, iga.Notification, "or")
 		if err != nil {
 			return err
 		}
@@ -370,6 +380,9 @@ func runC15(e *core.Env) error {
 		tx.Data = evil
 		tx.From = evil
 		to := append(append(make([]byte, 12), evil[:8]...), make([]byte, 12)...)
+		if i%2 == 0 {
+			to = append(make([]byte, 31), 1) // the address iga's filter accepts: the row is written and notified
+		}
 		tx.Logs = eth.Logs{{Idx: 1, Address: evil, Topics: []eth.Bytes{d.Event.SignatureHash(), make([]byte, 32), to}, Data: append(make([]byte, 64), append(evil, make([]byte, 32)...)[:32]...)}}
 		b.Txs = eth.Txs{tx}
 		core.Protect(func() string { d.Insert(e2eCtx("src1", 7), &mu, fc, []eth.Block{b}); return "" })
@@ -380,6 +393,67 @@ func runC15(e *core.Env) error {
 			}
 		}
 		e.Add(core.Case{Impl: verdict, Spec: "only as data", Key: fmt.Sprintf("c15 chain %d", i), Nontrivial: true, Tags: []string{"chain-data"}})
+	}
+	// ---- the same for TEXT that comes from the chain: an event with string and bytes inputs, stored in
+	// columns that are also notification columns (the payload of pg_notify is chain data too)
+	for i := 0; i < e.N(20, 200); i++ {
+		m := config.Integration{Name: "msgs", Enabled: true}
+		m.Table = wpg.Table{Name: "tm", Columns: []wpg.Column{{Name: "sender", Type: "bytea"}, {Name: "body", Type: "text"}, {Name: "blob", Type: "bytea"}, {Name: "tx_input", Type: "bytea"}}}
+		m.Event = dig.Event{Name: "Message", Type: "event", Inputs: []dig.Input{
+			{Indexed: true, Name: "sender", Type: "address", Column: "sender"},
+			{Name: "body", Type: "string", Column: "body"},
+			{Name: "blob", Type: "bytes", Column: "blob"},
+		}}
+		m.Block = []dig.BlockData{{Name: "tx_input", Column: "tx_input"}}
+		m.Notification = dig.Notification{Columns: core.Pick(r, [][]string{{"body"}, {"sender", "body"}, {"body", "blob", "tx_input"}, {"blob"}})}
+		m.Sources = []config.Source{{Name: "src1", Start: 1}}
+		root := config.Root{Integrations: []config.Integration{m}, Sources: []config.Source{{Name: "src1", ChainID: 7, URLs: []string{"http://127.0.0.1:1"}}}}
+		if err := config.ValidateFix(&root); err != nil {
+			return fmt.Errorf("c15 msgs: %w", err)
+		}
+		m = root.Integrations[0]
+		d, err := dig.New(m.Name, m.Event, m.Block, m.Table, m.Notification, m.FilterAGG)
+		if err != nil {
+			return err
+		}
+		evil := mark + core.Pick(r, hostile) + core.Pick(r, []string{"'); drop table tm; select ('", "'; drop table tm; --", "\\'; --", "$1", "x' || pg_sleep(9) || '"})
+		pad := func(b []byte) []byte { return append(b, make([]byte, (32-len(b)%32)%32)...) }
+		word := func(n int) []byte { w := make([]byte, 32); w[31], w[30] = byte(n), byte(n>>8); return w }
+		bodyEnc := append(word(len(evil)), pad([]byte(evil))...)
+		blobEnc := append(word(len(evil)), pad([]byte(evil))...)
+		data := append(append(word(64), word(64+len(bodyEnc))...), append(bodyEnc, blobEnc...)...)
+		fc := &fakeConn{refs: map[string]map[string]bool{}}
+		var mu sync.Mutex
+		var b eth.Block
+		b.Header.Number = 5
+		tx := eth.Tx{}
+		tx.Data = []byte(evil)
+		tx.Logs = eth.Logs{{Idx: 1, Address: make([]byte, 20), Topics: []eth.Bytes{d.Event.SignatureHash(), make([]byte, 32)}, Data: data}}
+		b.Txs = eth.Txs{tx}
+		out := core.Protect(func() string {
+			if _, err := d.Insert(e2eCtx("src1", 7), &mu, fc, []eth.Block{b}); err != nil {
+				return "err"
+			}
+			return "ok"
+		})
+		verdict := "only as data"
+		for _, q := range append(fc.queries, fc.execs...) {
+			if strings.Contains(q.SQL, mark) || strings.Contains(q.SQL, "drop table") || strings.Contains(q.SQL, "pg_sleep") {
+				verdict = "chain data in SQL text: " + trunc2(q.SQL)
+			}
+		}
+		asArg := false
+		for _, q := range fc.execs {
+			for _, a := range q.Args {
+				if strings.Contains(fmt.Sprint(a), mark) {
+					asArg = true
+				}
+			}
+		}
+		stored := len(fc.copies) > 0 && len(fc.copies[0].Rows) == 1
+		e.Add(core.Case{Impl: verdict, Spec: "only as data", Key: fmt.Sprintf("c15 chain-text %d", i), Nontrivial: stored,
+			Tags:   []string{"chain-text", "insert:" + out, fmt.Sprintf("row-stored=%v", stored), fmt.Sprintf("payload-as-parameter=%v", asArg), fmt.Sprintf("notify-columns=%d", len(m.Notification.Columns))},
+			Detail: map[string]any{"text_on_chain": evil, "notification_columns": m.Notification.Columns}})
 	}
 	return nil
 }
